@@ -27,9 +27,9 @@ CLAIMED = {
          "Decides the tiling argument: the cursor moves only in skip/skipN; every Space and Raw stored is a slice of the input; each Space begins where the previous comment/token ended and ends where Raw begins; Pos and End are the bounds of Raw; on every return the cursor is at the last End and Pos, End, Space, Raw are stored (Space/Raw not for a <bad> token); <eof> is a fixed point, every other return advanced.",
          "Trusted: go/ssa; callees of nextToken are summarised as 'move the cursor forward' (their bounds are C03/R6). Not decided: that Space holds only whitespace and Raw exactly one token (C14).", "DESIGN.md §2 C13"),
  "C04": ("field-based value-flow (shape) analysis of the parser over go/ssa + per-allocation-site abstract evaluation of the consumer methods; residual-set dataflow for switch exhaustiveness",
-         "Decides for every allocation site of every node type that SQL/Pos/End never dereference a field that may be nil at that site (helpers summarised, branches on site-constant fields pruned), that every type/constant switch whose fall-through panics covers what can flow to it, and that consumer indexing is length-guarded.",
+         "Decides for every allocation site of every node type that SQL/Pos/End never dereference a field that may be nil at that site (helpers summarised, branches on site-constant fields pruned), that every type/constant switch whose fall-through panics covers what can flow to it, and that every index/slice of the consumers is within bounds (relational numeric abstract interpretation of package ast).",
          "Trusted: go/ssa, VTA; the TKAI summaries used to refine nil returns of tryParse* helpers; no assumptions (peekDelimiter's byte guard is decided by the byte-fact interpretation, C03/R9). Not decided: trees built by hand by users.", "DESIGN.md §2 C04"),
- "C07": ("extraction of the operator table from the parser's SSA with the token-kind abstract interpreter; comparison with a reference table; order-isomorphism check of the printer's exprPrec switch",
+ "C07": ("extraction of the operator table from the parser's SSA with the token-kind abstract interpreter; comparison with a reference table; the printer's exprPrec/paren read by partial evaluation (an interpreter of their SSA over every node type and operator constant) and checked for order-isomorphism",
          "The property is about a finite table and is decided exactly: levels, token→operator constants, associativity, operand parsers, printer precedence ranks and ParenExpr preservation, for all operators.",
          "Trusted: the GoogleSQL reference table typed into the checker; TKAI guard extraction.", "DESIGN.md §2 C07"),
  "C08": ("token-kind abstract interpretation (forward dataflow over SSA, interprocedural summaries = FIRST/pass sets) + contradiction rules",
@@ -47,7 +47,7 @@ CLAIMED = {
  "C09": ("must-pass-through / dominance analysis on the SSA control-flow graph + who-may-write and call-graph reachability rules",
          "Decides the control-flow contract between Parser.errors, Bad nodes and the nil error for every entry point, every Bad* allocation site, every store to the error list and every Clone()/restore lookahead region.",
          "Trusted: go/ssa CFG and dominators, VTA call graph. The range 0 <= Pos <= End <= len(input) of the lexer's error positions is decided by the LEXBOUNDS run (C09/R5 with C03/R6). Not decided: one-error-per-Bad-node counting beyond 'each handler appends'.", "DESIGN.md §2 C09"),
- "C14": ("finite tables read out of the syntax tree / SSA on every run and compared with reference tables from the GoogleSQL lexical specification; exact set-domain dataflow for the byte classifiers",
+ "C14": ("finite tables read out of the syntax tree / SSA on every run and compared with reference tables from the GoogleSQL lexical specification; partial evaluation (an interpreter of the SSA, incl. the package initialisers) of the keyword tables, the keyword classifiers and the byte classifiers over their finite domains; byte-set dataflow and byte facts for operator starts and parameter names",
          "Decides table agreement: reserved keywords, escape decode table incl. digit counts and code-point bounds, operator recognition (matched bytes = kind spelling = bytes skipped), comment openers, dot-identifier trigger set, character classes over all 256 bytes; the field-token reader, the raw-literal arm and IsKeyword have their shape; the comment terminator search is exhaustive (unit steps, gives up only where the terminator no longer fits, in-range accesses: LEXBOUNDS).",
          "Trusted: the reference tables typed into the checker from the documentation. Not decided: the number automaton, prefix x quote matrix, rejection of exactly the invalid inputs.", "DESIGN.md §2 C14"),
  "C15": ("encode/decode table inverse check between token/quote.go and the lexer's escape table; dominance check of raw writes on SSA; resolved-callee agreement of identifier predicates",
@@ -57,13 +57,13 @@ CLAIMED = {
          "Decides that outside package initialisers nothing writes to or lets escape package-level state, that there is no ambient input or scheduling/map-order dependence, that no AST node can alias parser/lexer/file state, and that no address-valued operand (pointer, map, func) is formatted into a message or an SQL text.",
          "Trusted: purity of the whitelisted standard-library functions; no unsafe/cgo (checked by the import rule).", "DESIGN.md §2 C18"),
  "C17": ("custom lint over the type-checked syntax tree (go/types field classification vs. generated switch) + SSA shape check of the engine",
-         "Decides structurally, for all 264 node structs, that the generated traversal table pushes exactly the node-typed fields in reverse declaration order under their own names, that the 25-line engine has the pop/push/prune shape and Preorder stops calling yield once it returned false; this is the table the behaviour is driven by, so a wrong or missing entry is caught for every node type, including those no test traverses.",
+         "Decides structurally, for all 264 node structs, that the generated traversal table pushes exactly the node-typed fields in reverse declaration order under their own names, that the 25-line engine has the pop/push/prune shape (helpers followed), that no size limit cuts the traversal, and that the callback Preorder hands to Inspect — explored as a finite state machine over its captured flags — never calls yield again after it returned false; this is the table the behaviour is driven by, so a wrong or missing entry is caught for every node type, including those no test traverses.",
          "Trusted: go/packages+go/types view of the tree; the Go semantics of append/slices. Not decided: the dynamic 'exactly once' theorem beyond the shape of walkMain.", "DESIGN.md §2 C17"),
  "C20": ("value-identity (dataflow) rules over the SSA of token/file.go and error.go: which value reaches which field / format operand / slice bound",
          "Decides the wiring the property rests on: Position.Line/Column are ResolvePos(pos), EndLine/EndColumn ResolvePos(end); the message prefix is path:Line+1:Column+1 of the error's own Position; ResolvePos returns column = pos - lines[line] for the line it returns, chosen by lines[line] <= pos scanning from the last entry down; the line table starts with 0 and grows by len(part)+1 over strings.Split(Buffer, \"\\n\"); every excerpt line is Buffer[lines[l]:lines[l+1]-1] for l from the resolved line to the resolved end line, numbered l+1.",
-         "Trusted: go/ssa. Not decided: that File.Position never panics for 0 <= pos <= end <= len and the arithmetic theorem 'line = number of newline bytes before pos' — both need invariants about the contents of File.lines (sorted, last entry len+1), which no analysis built here expresses; a rewrite of the linear search (binary search) would be reported as undecided.", "DESIGN.md §2 C20"),
+         "Trusted: go/ssa. Not decided: that File.Position never panics for 0 <= pos <= end <= len and the arithmetic theorem 'line = number of newline bytes before pos' — both need invariants about the contents of File.lines (sorted, last entry len+1), which no analysis built here expresses; the binary search the source's TODO asks for (sort.Search over the table) is accepted by its library contract; other search schemes are reported as undecided.", "DESIGN.md §2 C20"),
  "C19": ("translation validation by syntax-tree comparison: checker's own POSLANG parser + translator vs. committed pos.go / walk_internal.go",
-         "For each of the 264 node structs the documented pos/end expression is parsed with an independent parser, type-checked against the struct and compared with the body of the committed Pos()/End(); walk table against go/types; generator emitter/interpreter sibling agreement by shape; each interpreter method computes the same function as the helper its emitter names (abstract execution over the finite partition of operand values their comparisons distinguish).",
+         "For each of the 264 node structs the documented pos/end expression is parsed with an independent parser, type-checked against the struct and compared with the body of the committed Pos()/End(); walk table against go/types; generator emitter/interpreter sibling agreement by shape; each interpreter method computes the same function as the helper its emitter names (abstract execution over the finite partition of operand values their comparisons distinguish); helper synonyms and delegating helpers are compared by their contract tables; the first-match helpers are evaluated over every pattern of up to eight alternatives.",
          "Trusted: the checker's POSLANG parser/translator (written from the documented EBNF). Not decided: byte-for-byte generator output (would mean running repository code), the reflective Var.Eval* methods.", "DESIGN.md §2 C19"),
 }
 NOT_APPLICABLE = {
@@ -108,7 +108,7 @@ def main():
         }],
         "checks": checks,
         "not_applicable": na,
-        "notes": "All claims are at level 'other': each check decides structural necessary conditions of a behavioural property from the source (see DESIGN.md per property: decides / does not decide). Known genuine defects are listed in known_findings.json and printed as KNOWN-FINDING.",
+        "notes": "All claims are at level 'other' (static analysis only; where a table is finite it is obtained by interpreting the SSA over its whole domain — nothing of the repository is run): each check decides structural necessary conditions of a behavioural property from the source (see DESIGN.md per property: decides / does not decide). Known genuine defects are listed in known_findings.json and printed as KNOWN-FINDING.",
     }
     out = os.path.join(D, "MANIFEST.json")
     json.dump(m, open(out, "w"), indent=1)
